@@ -1037,6 +1037,23 @@ impl<'a> Iterator for SelectorIter<'a> {
                                 return None;
                             } else {
                                 let result = self.get_internal_ranged_item(self.selector);
+                                if self.recurse_annotation {
+                                    // as for a plain AnnotationSelector: the targeted annotation's own target follows
+                                    if let Selector::AnnotationSelector(a_handle, _) = result.as_ref() {
+                                        let annotation: &Annotation = self
+                                            .store
+                                            .get(*a_handle)
+                                            .expect("referenced annotation must exist");
+                                        self.subiterstack.push(SelectorIter {
+                                            selector: annotation.target(),
+                                            subiterstack: Vec::new(),
+                                            cursor_in_range: 0,
+                                            recurse_annotation: self.recurse_annotation,
+                                            store: self.store,
+                                            done: false,
+                                        });
+                                    }
+                                }
                                 self.cursor_in_range += 1;
                                 return Some(result);
                             }
@@ -1068,11 +1085,9 @@ impl<'a> Iterator for SelectorIter<'a> {
                 let result = self.subiterstack.last_mut().unwrap().next();
                 if result.is_none() {
                     self.subiterstack.pop();
-                    if self.subiterstack.is_empty() {
-                        return None;
-                    } else {
-                        continue; //recursion
-                    }
+                    //recursion (with an empty stack: back to this selector, which is either done or
+                    //an internal range that has more items)
+                    continue;
                 } else {
                     return result;
                 }
